@@ -105,6 +105,8 @@ pub struct StreamModel {
     /// per-item timeout of the stream, if the search was opened with one
     pub timeout_ms: Option<u64>,
     pub adapter: Adapter,
+    /// index of the last emission consumed by next(): item index, or items.len() for SearchResultDone
+    pub last_consumed: Option<usize>,
 }
 
 pub fn synthetic(rc: u32) -> ResC {
@@ -127,6 +129,7 @@ impl StreamModel {
             result: None,
             timeout_ms,
             adapter,
+            last_consumed: None,
         })
     }
 
@@ -147,6 +150,7 @@ impl StreamModel {
                     return Ret::Err(crate::world::ErrC::Timeout);
                 }
                 self.cursor += 1;
+                self.last_consumed = Some(self.cursor - 1);
                 if self.entries_only {
                     match &it.op {
                         RespOp::Entry { .. } => return Ret::Item(Some(item_expect(&it.op, &it.ctrls))),
@@ -166,6 +170,7 @@ impl StreamModel {
                 return Ret::Err(crate::world::ErrC::Timeout);
             }
             self.result = Some(res_expect(&d.res, &d.ctrls));
+            self.last_consumed = Some(self.items.len());
             self.state = SState::Done;
             return Ret::Item(None);
         }
@@ -200,4 +205,111 @@ pub fn fin_matches(actual: &Ret, expected: &Ret) -> bool {
         }
         _ => false,
     }
+}
+
+// ---------------------------------------------------------------------------------------------
+// Request model (C02): what RFC 4511 says must be on the wire for a call
+// ---------------------------------------------------------------------------------------------
+
+use crate::msg::{Filter, ReqOp};
+use crate::scenario::{ModSpec, Mods, SearchOpts};
+
+pub enum ReqExpect {
+    /// the call is refused before anything is sent, with this error class
+    Refused(&'static str),
+    Sent(ReqOp),
+}
+
+fn sorted_dedup(v: &[Vec<u8>]) -> Vec<Vec<u8>> {
+    let mut x = v.to_vec();
+    x.sort();
+    x.dedup();
+    x
+}
+
+/// `opts` are the search options in effect for this call (None = defaults).
+pub fn req_expect(op: &OpSpec, opts: Option<&SearchOpts>, filter_of: impl Fn(&crate::scenario::SearchSpec) -> Option<Filter>) -> ReqExpect {
+    use ReqExpect::*;
+    match op {
+        OpSpec::SimpleBind { dn, pw } => Sent(ReqOp::BindSimple { version: 3, dn: dn.as_bytes().to_vec(), pw: pw.as_bytes().to_vec() }),
+        OpSpec::SaslExternal => Sent(ReqOp::BindSasl { version: 3, dn: vec![], mech: b"EXTERNAL".to_vec(), creds: Some(vec![]) }),
+        OpSpec::Search(s) => {
+            let Some(f) = filter_of(s) else { return Refused("FilterParsing") };
+            let d = SearchOpts::default();
+            let o = opts.unwrap_or(&d);
+            Sent(ReqOp::Search {
+                base: s.base.as_bytes().to_vec(),
+                scope: s.scope as i64,
+                deref: o.deref as i64,
+                size: o.sizelimit as i64,
+                time: o.timelimit as i64,
+                types_only: o.typesonly,
+                filter: f,
+                attrs: s.attrs.iter().map(|a| a.as_bytes().to_vec()).collect(),
+            })
+        }
+        OpSpec::Add { dn, attrs } => {
+            if attrs.iter().any(|(_, v)| v.is_empty()) {
+                return Refused("AddNoValues");
+            }
+            Sent(ReqOp::Add { dn: dn.as_bytes().to_vec(), attrs: attrs.iter().map(|(n, v)| (n.clone(), sorted_dedup(v))).collect() })
+        }
+        OpSpec::Compare { dn, attr, val } => Sent(ReqOp::Compare { dn: dn.as_bytes().to_vec(), attr: attr.as_bytes().to_vec(), val: val.clone() }),
+        OpSpec::Delete { dn } => Sent(ReqOp::Del { dn: dn.as_bytes().to_vec() }),
+        OpSpec::Modify { dn, mods } => {
+            let mut changes = vec![];
+            for m in mods {
+                match m {
+                    ModSpec::Add(a, v) => {
+                        if v.is_empty() {
+                            return Refused("AddNoValues");
+                        }
+                        changes.push((0, a.clone(), sorted_dedup(v)))
+                    }
+                    ModSpec::Delete(a, v) => changes.push((1, a.clone(), sorted_dedup(v))),
+                    ModSpec::Replace(a, v) => changes.push((2, a.clone(), sorted_dedup(v))),
+                    ModSpec::Increment(a, v) => changes.push((3, a.clone(), vec![v.clone()])),
+                }
+            }
+            Sent(ReqOp::Modify { dn: dn.as_bytes().to_vec(), changes })
+        }
+        OpSpec::ModifyDn { dn, rdn, delete_old, new_sup } => Sent(ReqOp::ModDn {
+            dn: dn.as_bytes().to_vec(),
+            rdn: rdn.as_bytes().to_vec(),
+            delete_old: *delete_old,
+            new_sup: new_sup.as_ref().map(|s| s.as_bytes().to_vec()),
+        }),
+        OpSpec::Extended { oid, val } => Sent(ReqOp::Extended { oid: oid.as_bytes().to_vec(), val: val.clone() }),
+        OpSpec::Abandon(_) => Sent(ReqOp::Abandon { id: -1 }),
+        OpSpec::Unbind => Sent(ReqOp::Unbind),
+    }
+}
+
+/// Reference model of the one-shot modifiers of a handle.
+#[derive(Clone, Debug, Default)]
+pub struct ModState {
+    pub m: Mods,
+}
+
+impl ModState {
+    pub fn set(&mut self, m: &Mods) {
+        if m.controls.is_some() {
+            self.m.controls = m.controls.clone();
+        }
+        if m.timeout_ms.is_some() {
+            self.m.timeout_ms = m.timeout_ms;
+        }
+        if m.opts.is_some() {
+            self.m.opts = m.opts.clone();
+        }
+    }
+    /// an operation starts: it uses what was set since the previous operation, and clears it
+    pub fn take(&mut self) -> Mods {
+        std::mem::take(&mut self.m)
+    }
+}
+
+/// Controls as they must appear on the wire for a set of request controls given to the API.
+pub fn req_ctrls_expect(c: &Option<Vec<Ctl>>) -> Option<Vec<Ctl>> {
+    c.as_ref().map(|v| v.iter().map(|c| Ctl { oid: c.oid.clone(), crit: if c.crit == Some(true) { Some(true) } else { None }, val: c.val.clone() }).collect())
 }
